@@ -1,1 +1,3 @@
 module github.com/hashicorp/go-version
+
+go 1.23.5
